@@ -1,0 +1,19 @@
+//go:build verif
+
+package rtsp
+
+import "github.com/q191201771/naza/pkg/nazahttp"
+
+// VerifMaxHttpMsgBodyLength exposes the unexported bound on the Content-Length of an rtsp message
+// (verification harness in /verif only).
+const VerifMaxHttpMsgBodyLength = maxHttpMsgBodyLength
+
+// VerifReadHttpRequestMessage exposes readHttpRequestMessage (what the server command session reads a request with).
+func VerifReadHttpRequestMessage(r nazahttp.HttpReader) (nazahttp.HttpReqMsgCtx, error) {
+	return readHttpRequestMessage(r)
+}
+
+// VerifReadHttpResponseMessage exposes readHttpResponseMessage (what the client command session reads a response with).
+func VerifReadHttpResponseMessage(r nazahttp.HttpReader) (nazahttp.HttpRespMsgCtx, error) {
+	return readHttpResponseMessage(r)
+}
